@@ -397,6 +397,9 @@ func (fr *frame) prepareCall(call *ssa.CallCommon, pos token.Pos) (fn Value, arg
 
 // call interprets a call to fn with args.
 func (in *Interp) call(caller *frame, callpos token.Pos, fn Value, args []Value) Value {
+	if callpos.IsValid() {
+		in.lastCallPos = callpos
+	}
 	switch fn := fn.(type) {
 	case *ssa.Function:
 		if fn == nil {
